@@ -1140,11 +1140,36 @@ func init() {
 			return "", err
 		}
 		sb.WriteString("/-- every loop of reader/controller that receives from a channel:\n")
-		sb.WriteString("    (handler, loop, can be left before the channel is closed, the function leaves a drain behind, it cancels) -/\n")
-		sb.WriteString("def handlerLoops : List (String × String × Bool × Bool × Bool) :=\n  [" + strings.Join(loops, ",\n   ") + "]\n")
+		sb.WriteString("    (handler, loop, can be left by return/break/goto/panic before the channel is closed, the function leaves a drain\n    behind, it cancels, the functions called in the loop body) -/\n")
+		sb.WriteString("def handlerLoops : List (String × String × Bool × Bool × Bool × List String) :=\n  [" + strings.Join(loops, ",\n   ") + "]\n")
 		sb.WriteString("end Qryn.Gen.ReadGoroutines\n")
 		return sb.String(), nil
 	})
+}
+
+// the functions called in a loop body (conversions to []byte / string left out), sorted
+func rgLoopCalls(body *ast.BlockStmt) string {
+	set := map[string]bool{}
+	ast.Inspect(body, func(n ast.Node) bool {
+		if ce, ok := n.(*ast.CallExpr); ok {
+			switch f := ce.Fun.(type) {
+			case *ast.ArrayType, *ast.MapType:
+				return true
+			case *ast.Ident:
+				if rgBuiltinTypes[f.Name] {
+					return true
+				}
+			}
+			set[rgText(ce.Fun)] = true
+		}
+		return true
+	})
+	var xs []string
+	for x := range set {
+		xs = append(xs, x)
+	}
+	sort.Strings(xs)
+	return rgLeanList(xs)
 }
 
 // rgHandlerLoops: `for x := range ch` over a channel and `for { select { case x := <-ch … } }` in reader/controller
@@ -1299,16 +1324,16 @@ func rgHandlerLoops() ([]string, error) {
 						return true // two iteration variables: not a channel
 					case isId && chans[x.Name]:
 						k++
-						res = append(res, fmt.Sprintf("(%s, %s, %v, %v, %v)", leanStr(funcName(fd)), leanStr(fmt.Sprintf("#%d range %s", k, x.Name)),
-							leaves(s.Body, false), drains, cancels))
+						res = append(res, fmt.Sprintf("(%s, %s, %v, %v, %v, %s)", leanStr(funcName(fd)), leanStr(fmt.Sprintf("#%d range %s", k, x.Name)),
+							leaves(s.Body, false), drains, cancels, rgLoopCalls(s.Body)))
 					case isId && slices[x.Name]:
 					case s.Key == nil:
 					default:
 						if _, isCall := s.X.(*ast.CallExpr); isCall {
 							// `for range watcher.GetRes() {}` and the like
 							k++
-							res = append(res, fmt.Sprintf("(%s, %s, %v, %v, %v)", leanStr(funcName(fd)), leanStr(fmt.Sprintf("#%d range %s", k, rgText(s.X))),
-								leaves(s.Body, false), drains, cancels))
+							res = append(res, fmt.Sprintf("(%s, %s, %v, %v, %v, %s)", leanStr(funcName(fd)), leanStr(fmt.Sprintf("#%d range %s", k, rgText(s.X))),
+								leaves(s.Body, false), drains, cancels, rgLoopCalls(s.Body)))
 							return true
 						}
 						if _, isComp := s.X.(*ast.CompositeLit); isComp {
@@ -1337,8 +1362,8 @@ func rgHandlerLoops() ([]string, error) {
 							}
 							if recv != "" {
 								k++
-								res = append(res, fmt.Sprintf("(%s, %s, %v, %v, %v)", leanStr(funcName(fd)), leanStr(fmt.Sprintf("#%d select <-%s", k, recv)),
-									leaves(s.Body, true), drains, cancels))
+								res = append(res, fmt.Sprintf("(%s, %s, %v, %v, %v, %s)", leanStr(funcName(fd)), leanStr(fmt.Sprintf("#%d select <-%s", k, recv)),
+									leaves(s.Body, true), drains, cancels, rgLoopCalls(s.Body)))
 							}
 						}
 					}
